@@ -139,6 +139,7 @@ struct C01 {
     nullifier_map_max: i64,
     pruning_observed: bool,
     violated: bool,
+    coin_checks: u64,
 }
 
 impl C01 {
@@ -153,6 +154,7 @@ impl C01 {
             nullifier_map_max: 0,
             pruning_observed: false,
             violated: false,
+            coin_checks: 0,
         }
     }
 
@@ -213,6 +215,19 @@ impl Monitor for C01 {
                 self.viol(h, r, "C01:account-missing-from-summary", format!("account {i}"));
                 continue;
             };
+            // ---- transparent coins: counted while mined; a coin un-mined by a rewind may keep
+            // counting until it expires (height + 40 < target), like any orphaned transaction
+            if h.cfg.coins {
+                let ub = bal.unshielded_balance();
+                let got = u64::from(ub.total()) + u64::from(ub.uneconomic_value());
+                let mined: u64 = h.coins.iter().filter(|c| c.account == i && c.mined).map(|c| c.value).sum();
+                let orphan_unexpired: u64 = h.coins.iter().filter(|c| c.account == i && !c.mined && c.height + ledger::DEFAULT_TX_EXPIRY_DELTA >= tip + 1).map(|c| c.value).sum();
+                self.coin_checks += 1;
+                if got < mined || got > mined + orphan_unexpired {
+                    self.viol(h, r, "C01:transparent-balance-mismatch",
+                        format!("account {i}: wallet unshielded total+uneconomic = {got}, mined coins = {mined}, unexpired un-mined coins = {orphan_unexpired} (tip {tip}) after {:?}", h.last_op()));
+                }
+            }
             for p in POOLS {
                 let got = pool_total(bal, p);
                 let e = &view.per[&(i, p)];
@@ -254,6 +269,9 @@ impl Monitor for C01 {
     }
 
     fn at_end(&mut self, h: &mut Hist, r: &mut Reporter) {
+        r.count("transparent_coin_balance_checks", self.coin_checks);
+        r.count("transparent_coins_given", h.coins.len() as u64);
+        r.count("transparent_coins_unmined_by_rewind", h.coins.iter().filter(|c| !c.mined).count() as u64);
         let full = h.aborted.is_none() && h.w.fully_scanned_upto(&h.sim);
         r.count("histories", 1);
         r.count("balance_checks", self.checks);
@@ -394,7 +412,8 @@ fn main() {
             continue;
         }
         let mut rng = vh_common::rng(args.shard_seed(), 100 + i);
-        let cfg = HistCfg::random(&mut rng, thorough);
+        let mut cfg = HistCfg::random(&mut rng, thorough);
+        cfg.coins = (i + args.shard) % 2 == 0;
         let mut mon = C01::new();
         let res = guard(|| {
             let mut h = Hist::new(cfg.clone(), rng);
